@@ -40,6 +40,11 @@ Passed(k, i) == [k |-> k, i |-> i, ok |-> TRUE]
 Failed(k, i, exp) == [k |-> k, i |-> i, ok |-> FALSE, exp |-> exp]
 Check(k, i, cond, exp) == IF cond THEN Passed(k, i) ELSE Failed(k, i, exp)
 
+\* The laws are ALSO evaluated on the real bytes (read back with the specification's reader) when the text is
+\* at most LawLimit bytes: beyond that only byte equality with the specification is checked (TLC needs
+\* ~10 microseconds per byte and pass; the laws themselves are model-checked in MCEncoder.tla).
+LawLimit == 400
+
 NoRawControl(s) == \A i \in 1..Len(s) : s[i] >= 32 /\ s[i] # 127
 
 \* library ---------------------------------------------------------------------
@@ -57,8 +62,9 @@ LibChecks(v, r, i) ==
      Check("marshal.wellformed", i,
          /\ r.marshal.t = "bytes"                            \* not an error / panic record
          /\ LET m == r.marshal.b IN
-            /\ ValidUtf8(m) /\ NoRawControl(m)
-            /\ LET d == Dec(m) IN d.ok /\ SameValue(d.v, Norm(v)), <<>>) >>
+            Len(m) > LawLimit \/
+              (/\ ValidUtf8(m) /\ NoRawControl(m)
+               /\ LET d == Dec(m) IN d.ok /\ SameValue(d.v, Norm(v))), <<>>) >>
 
 \* command ---------------------------------------------------------------------
 RECURSIVE AllSame(_, _, _)
@@ -67,23 +73,23 @@ AllSame(as, bs, i) == IF i > Len(as) THEN TRUE ELSE SameValue(as[i], bs[i]) /\ A
 CliChecks(vs, r, j) ==
   LET cfg == CfgOf(r.cfg)
       exp == Stdout(vs, cfg)
-      plain == StripSGR(r.out)
+      plain == IF cfg.color THEN StripSGR(r.out) ELSE r.out
   IN << Check("cli.status", j, r.status = exp.status, <<exp.status>>),
         Check("cli.bytes", j, r.out = exp.out, exp.out),
         \* property level: after removing SGR sequences the text is JSON that reads back equal, whatever the colours
-        Check("cli.nosgr", j, exp.status # 0 \/ plain = Stdout(vs, [cfg EXCEPT !.color = FALSE]).out, <<>>),
+        Check("cli.nosgr", j, exp.status # 0 \/ cfg.raw # "" \/ ~cfg.color \/ plain = Stdout(vs, [cfg EXCEPT !.color = FALSE]).out, <<>>),
         Check("cli.readback", j,
-            exp.status # 0 \/ cfg.raw # "" \/
+            exp.status # 0 \/ cfg.raw # "" \/ Len(r.out) > LawLimit \/
               (/\ ValidUtf8(r.out)
                /\ LET d == DecStream(plain) IN d.ok /\ Len(d.vs) = Len(vs) /\ AllSame(d.vs, [i \in 1..Len(vs) |-> Norm(vs[i])], 1)), <<>>),
         Check("cli.indent", j,
-            exp.status # 0 \/ cfg.raw # "" \/ cfg.indent < 0 \/ Len(vs) = 0 \/
+            exp.status # 0 \/ cfg.raw # "" \/ cfg.indent < 0 \/ Len(vs) = 0 \/ Len(r.out) > LawLimit \/
               (Len(plain) > 0 /\ plain[Len(plain)] = LF /\ IndentLaw(SubSeq(plain, 1, Len(plain) - 1), cfg)), <<>>) >>
 
 \* debug / stderr ----------------------------------------------------------------
 DbgChecks(vs, r, j) ==
   LET pal == PaletteOf(r.color, <<>>).pal
-      exp == Flat([i \in 1..Len(vs) |-> DebugBytes(vs[i], pal) \o StderrBytes(vs[i], pal)])
+      exp == FlatF([i \in 1..Len(vs) |-> DebugBytes(vs[i], pal) \o StderrBytes(vs[i], pal)], Len(vs))
   IN << Check("dbg.bytes", j, r.status = 0 /\ r.err = exp /\ r.out = <<>>, exp) >>
 
 \* YAML --------------------------------------------------------------------------
@@ -108,7 +114,7 @@ YamlChecks(vs, r) ==
   ELSE IF r.s2 # 0 THEN << Failed("yaml.read", 1, <<>>) >>
   ELSE LET d == DecStream(r.back)
            sameLen == d.ok /\ Len(d.vs) = Len(vs)
-           exp == Flat([i \in 1..Len(vs) |-> Enc(Norm(vs[i])) \o <<LF>>])
+           exp == FlatF([i \in 1..Len(vs) |-> Enc(Norm(vs[i])) \o <<LF>>], Len(vs))
        IN IF sameLen /\ AllSame(d.vs, [i \in 1..Len(vs) |-> Norm(vs[i])], 1) THEN << Passed("yaml.roundtrip", 1) >>
           ELSE IF sameLen /\ AllSame(d.vs, [i \in 1..Len(vs) |-> Norm(BigAsString(vs[i]))], 1)
                THEN << [k |-> "yaml.roundtrip", i |-> 1, ok |-> FALSE, exp |-> exp, dev |-> "bigint-as-string"] >>
@@ -117,9 +123,9 @@ YamlChecks(vs, r) ==
 \* records -----------------------------------------------------------------------
 RecChecks(rec) ==
   LET vs == rec.vs IN
-  (IF Has(rec, "lib") THEN Flat([i \in 1..Len(vs) |-> LibChecks(vs[i], rec.lib[i], i)]) ELSE <<>>)
-    \o (IF Has(rec, "cli") THEN Flat([j \in 1..Len(rec.cli) |-> CliChecks(vs, rec.cli[j], j)]) ELSE <<>>)
-    \o (IF Has(rec, "dbg") THEN Flat([j \in 1..Len(rec.dbg) |-> DbgChecks(vs, rec.dbg[j], j)]) ELSE <<>>)
+  (IF Has(rec, "lib") THEN FlatF([i \in 1..Len(vs) |-> LibChecks(vs[i], rec.lib[i], i)], Len(vs)) ELSE <<>>)
+    \o (IF Has(rec, "cli") THEN FlatF([j \in 1..Len(rec.cli) |-> CliChecks(vs, rec.cli[j], j)], Len(rec.cli)) ELSE <<>>)
+    \o (IF Has(rec, "dbg") THEN FlatF([j \in 1..Len(rec.dbg) |-> DbgChecks(vs, rec.dbg[j], j)], Len(rec.dbg)) ELSE <<>>)
     \o (IF Has(rec, "yaml") THEN YamlChecks(vs, rec.yaml) ELSE <<>>)
 
 RecVerdict(rec) ==
